@@ -12023,6 +12023,36 @@ out:
     return ret;
 }
 
+/* Verification hook (read-only, add-only): exposes the private tree position cursor
+ * so that an explicit-state explorer can use it as part of a sound state key.
+ * Disabled unless the environment variable TSKIT_VERIF is set to 1. */
+static PyObject *
+Tree_get_verif_position(Tree *self)
+{
+    PyObject *ret = NULL;
+    const char *guard = getenv("TSKIT_VERIF");
+    const tsk_tree_position_t *pos;
+    const tsk_id_t *insertion;
+
+    if (guard == NULL || strcmp(guard, "1") != 0) {
+        PyErr_SetString(PyExc_RuntimeError, "verification hooks are disabled");
+        goto out;
+    }
+    if (Tree_check_state(self) != 0) {
+        goto out;
+    }
+    pos = &self->tree->tree_pos;
+    insertion = self->tree->tree_sequence->tables->indexes.edge_insertion_order;
+    ret = Py_BuildValue("nddinnnnii", (Py_ssize_t) pos->index, pos->interval.left,
+        pos->interval.right, pos->direction, (Py_ssize_t) pos->in.start,
+        (Py_ssize_t) pos->in.stop, (Py_ssize_t) pos->out.start,
+        (Py_ssize_t) pos->out.stop,
+        pos->in.order == NULL ? -1 : (int) (pos->in.order == insertion),
+        pos->out.order == NULL ? -1 : (int) (pos->out.order == insertion));
+out:
+    return ret;
+}
+
 static PyObject *
 Tree_get_index(Tree *self)
 {
@@ -13086,6 +13116,10 @@ static PyMethodDef Tree_methods[] = {
         .ml_meth = (PyCFunction) Tree_get_num_roots,
         .ml_flags = METH_NOARGS,
         .ml_doc = "Returns the number of roots in this tree." },
+    { .ml_name = "get_verif_position",
+        .ml_meth = (PyCFunction) Tree_get_verif_position,
+        .ml_flags = METH_NOARGS,
+        .ml_doc = "Verification hook: private position cursor (needs TSKIT_VERIF=1)." },
     { .ml_name = "get_index",
         .ml_meth = (PyCFunction) Tree_get_index,
         .ml_flags = METH_NOARGS,
